@@ -367,6 +367,19 @@ def _class_of(fn, st, nid):
     return None
 
 
+def truth(fn, st, nid):
+    """1 / 0 when the expression is known true / false on this path (a constant, or a variable whose sign class is known), else None"""
+    v = C.const_of(fn, nid)
+    if v is not None:
+        return 1 if v else 0
+    c = _class_of(fn, st, nid)
+    if c in (POS, NEG, NONZERO):
+        return 1
+    if c == ZERO:
+        return 0
+    return None
+
+
 def _branch(rule, fn, st, blk, cond, lab):
     if lab in ("T", "F"):
         l, op, r = C.cond_atom(fn, cond, lab == "T")
